@@ -832,7 +832,9 @@ func cliEngine(c *Ctx) {
 		[]string{"@ENV:RIO_MOUNT_WORKDIR=relwork@", "@GONE@", "unpack", "@GOODID@", "@W@/dst", "--source=ca+file://@W@/wh", "--placer=mount"},
 		[]string{"@ENV:RIO_BASE=relbase@", "@GONE@", "scan", "tar", "--source=file://@W@/nonexistent.tgz"})
 	for _, pl := range []string{"direct", "copy", "none"} {
-		vecs = append(vecs, []string{"unpack", "@GOODID@", "@W@/tlink", "--source=ca+file://@W@/wh", "--placer=" + pl},
+		vecs = append(vecs, []string{"unpack", "--help", "@GOODID@", "@W@/precious-dir", "--source=ca+file://@W@/wh", "--placer=" + pl},
+			[]string{"unpack", "@GOODID@", "@W@/precious-dir", "--help", "--source=ca+file://@W@/nowhere"},
+			[]string{"unpack", "@GOODID@", "@W@/tlink", "--source=ca+file://@W@/wh", "--placer=" + pl},
 			[]string{"unpack", "@GOODID@", "@W@/tlink/", "--source=ca+file://@W@/wh", "--placer=" + pl},
 			[]string{"unpack", "@GOODID@", "@W@/tlink/.", "--source=ca+file://@W@/wh", "--placer=" + pl},
 			[]string{"unpack", "@GOODID@", "@W@", "--source=ca+file://@W@/wh", "--placer=" + pl},
